@@ -751,9 +751,21 @@ static void std_connect(const cs_scenario *sc, const cs_std *st, bool *conn)
 			set[q] = lo;
 	    }
 	}
-    for (int p = 0; p < P; ++p)
-	for (int q = 0; q < P; ++q)
-	    conn[p * P + q] = (p == q) || set[p] == set[q];
+    /*
+     * Ports the standard leaves open may be connected to anything among
+     * themselves (vnacal_new(3) only requires that they have no through
+     * signal to or from the ports under test): a cell between two unused
+     * ports is therefore neither an equation nor a leakage observation.
+     */
+    {
+	bool used[CS_MAXP] = { false };
+	for (int i = 0; i < st->np; ++i)
+	    used[st->port[i] - 1] = true;
+	for (int p = 0; p < P; ++p)
+	    for (int q = 0; q < P; ++q)
+		conn[p * P + q] = (p == q) || set[p] == set[q] ||
+		    (!used[p] && !used[q]);
+    }
 }
 
 static int unknowns_per_system(const cs_vna *v)
